@@ -368,8 +368,9 @@ def C05(run):
     interptrace(run)
 
 
-def clitrace(run, fams, only=None):
-    """Record runs of the built rrss binary on TLC-generated programs and validate every observation against CliTrace.tla."""
+def clitrace(run, fams, only=None, det_only=False):
+    """Record runs of the built rrss binary on TLC-generated programs and validate every observation against CliTrace.tla.
+    det_only (C10): every command is run four times and only a difference between the runs is recorded (and rejected)."""
     import subprocess
     cases = run.path('cli_cases.txt')
     with open(cases, 'w') as out:
@@ -392,8 +393,11 @@ def clitrace(run, fams, only=None):
     rrss = build_rrss_bin()
     binp = build_harness('debug')
     trace = run.path('cli.ndjson')
+    env = dict(os.environ)
+    if det_only:
+        env['VH_CLI_DET_ONLY'] = '1'
     p = subprocess.run([binp, 'record', 'cli', '--in', cases, '--bin', rrss, '--dir', run.path(''), '--out', trace],
-                       stdout=subprocess.PIPE, stderr=subprocess.PIPE, text=True)
+                       stdout=subprocess.PIPE, stderr=subprocess.PIPE, text=True, env=env)
     if p.returncode != 0:
         raise ToolError('cli recorder failed: ' + p.stderr[-800:])
     out = run.path('clitrace.out')
@@ -477,6 +481,10 @@ def C10(run):
     grammar(run, 'fault', family='dettext')
     # lint reports with several diagnostics on one line (both passes reporting the same statement): order and content the same every time
     grammar(run, 'lint', family='dettext')
+    # "in different processes": the built binary, every command four times on the programs of the CLI corpus (only a difference between
+    # the four runs is recorded; what the tool prints is the business of C20)
+    run.rule += '; the built binary runs every command four times on the CLI corpus: identical stdout, stderr and exit status'
+    clitrace(run, (('cli', 1000),), det_only=True)
     if run.tier == 'thorough':
         grammar(run, 'stmt', family='dettext')
 
